@@ -56,6 +56,29 @@ def isubset (t : ITop) (keep : Nat → Bool) : ITop :=
     bonds := (t.bonds.filter (fun b => keep b.i && keep b.j)).map
       (fun b => { b with i := rank keep b.i, j := rank keep b.j }) }
 
+/-- numpy-style gathering: the elements at the listed positions, in the listed order (positions that name nothing select nothing) -/
+def gatherIdx {α : Type} (l : List α) (idx : List Nat) : List α := idx.filterMap (l[·]?)
+
+/-- a bond of the source in the subset: both ends found (first copies), the lower new index first -/
+def rebond (firstPos : Nat → Option Nat) (b : Bond) : Option Bond :=
+  match firstPos b.i, firstPos b.j with
+  | some x, some y => some { b with i := min x y, j := max x y }
+  | _, _ => none
+
+/-- `Topology.subset(atom_indices)` for an index *list* (after the `fix:`): the atoms follow the list as numpy indexing of the coordinate
+columns does — any order, repeats allowed; a bond goes to the first copy of each of its atoms and stores the lower new index first -/
+def isubsetL (t : ITop) (idx : List Nat) : ITop :=
+  let atoms' := gatherIdx t.atoms idx
+  let usedR : Nat → Bool := fun r => atoms'.any (fun a => a.res == r)
+  let res' := filterIdx usedR 0 t.residues
+  let usedC : Nat → Bool := fun c => res'.any (fun r => r.chain == c)
+  let live := idx.filter (· < t.atoms.length)
+  let firstPos : Nat → Option Nat := fun i => live.findIdx? (· == i)
+  { chainIds := filterIdx usedC 0 t.chainIds
+    residues := res'.map (fun r => { r with chain := rank usedC r.chain })
+    atoms := atoms'.map (fun a => { a with res := rank usedR a.res })
+    bonds := t.bonds.filterMap (rebond firstPos) }
+
 def icopy (t : ITop) : ITop := { chainIds := t.chainIds, residues := t.residues, atoms := t.atoms, bonds := t.bonds }
 
 def renumberIRes : Int → List IRes → List IRes
